@@ -501,6 +501,10 @@ def check_generated(chk, drv, g, protos, label, src="generated"):
                 if in_domain and fl["obs"] != fl["spec"]:
                     chk.disagree("theorem field_faithful_partial contradicted by the model itself",
                                  dict(inp, where="%s %s.%s" % (where, c["full"], fl["name"])), fl["obs"], fl["spec"])
+        # ---------------- (c) plugin -> runtime schema link: the model's `toSchema` vs what the runtime derives (p29)
+        if guard:
+            from props import c03_schema
+            c03_schema.compare_package(chk, drv, inp, where, lines[pkg], classes, mod, msgs, enums, spec_of)
     return nfields
 
 
